@@ -120,7 +120,7 @@ def handleHs (id ep method minorS : String) (hdrsRaw : Headers) (impl : List Str
     let hdrs : Headers := hdrsRaw.map fun h => (h.1, wireValue h.2)
     let statusN := status.toNat?.getD 999
     -- ---------------- model ----------------
-    let r := respond hdrs
+    let r := respondReq (minor == 1) hdrs
     let connLines := getAll hdrs hConnection
     let (model, kind) : String × String :=
       if !wireOk then ("400 0 none none none na", "hyper-reject")
@@ -129,8 +129,7 @@ def handleHs (id ep method minorS : String) (hdrsRaw : Headers) (impl : List Str
         let acc := match getFirst r.headers hAccept with | some a => hexN a | none => "none"
         let upg := match getFirst r.headers hUpgrade with | some a => hexN a | none => "none"
         let conn := hexN (hyperRespConnection minor connLines)
-        if minor == 1 then (s!"101 1 {acc} {upg} {conn} 1", "h11")
-        else (s!"101 0 {acc} {upg} {conn} 0", "h10")   -- finding K20a
+        (s!"101 1 {acc} {upg} {conn} 1", "h11")
       else (s!"{r.status} 0 none none none na", if minor == 1 then "h11" else "h10")
     let implS := " ".intercalate impl
     let agree := implS == model
@@ -152,11 +151,9 @@ def handleHs (id ep method minorS : String) (hdrsRaw : Headers) (impl : List Str
       else
         !must101 && ran == "0" &&
           ((400 ≤ statusN && statusN < 500) || (statusN == 0 && !wireOk))
-    -- ---------------- known findings ----------------
-    -- K20a: an HTTP/1.0 request with a complete handshake is answered 101 and
-    -- then dropped (hyper only upgrades HTTP/1.1 requests)
-    let k20a := wireOk && method == "GET" && minor == 0 && r.status == 101
-    let known := if !specOk && k20a then "K20a" else "-"
+    -- (K20a — 101 for a complete handshake over HTTP/1.0 — is repaired; those
+    -- cases are ordinary must-pass cases now: 400, handler not run)
+    let known := "-"
     -- ---------------- class ----------------
     let els := s!"c{c.letter}u{u.letter}v{v.letter}k{k.letter}"
     let keyKind := match getFirst hdrs hKey with
